@@ -74,6 +74,10 @@ Definition known_env_reads : list triple := [
   t3 "vppclassdiagram" "Class.GetForwardDeclarableNonPrimitiveTypesLinkedToThis" "set()";
   t3 "vppclassdiagram" "Class.GetNotForwardDeclarableNonPrimitiveTypesLinkedToThis" "set()";
   t3 "vppclassdiagram" "ClassDiagram.GetNamespaceDependencies" "set()";
+  (* the signatures an element declares itself: a set used for membership tests only, never iterated
+     (translator/setorder.py refuses any other use; Gen/SetOrder.membership_only_set_functions) *)
+  t3 "LanguageCPP" "LanguageCPP.GetOperationPerVisibility" "set()";
+  t3 "LanguageCsharp" "LanguageCsharp.GetOperationPerVisibility" "set()";
   (* a module-level constant set used for membership tests only *)
   t3 "vppclassdiagram" "<module>" "set-literal"
 ].
